@@ -150,7 +150,7 @@ fn reenter_n(vm: &mut Vm<Host>, name: &str, f: Value, args: &[Value]) -> R {
     vm.auxiliary_data.reenter_depth -= 1;
     let h1 = vm.runtime_data.verif_stack_height();
     let d1 = vm.runtime_data.verif_call_depth();
-    // record the balance for the oracle (only meaningful when the callee returned normally)
+    // record the balance for the oracle
     vm.auxiliary_data.log.push(HostCall {
         name: format!("{name}:after"),
         args: vec![
@@ -168,7 +168,20 @@ fn reenter_n(vm: &mut Vm<Host>, name: &str, f: Value, args: &[Value]) -> R {
         allocs: ctl.counters().allocs,
     });
     ctl.host_exit();
+    if name.starts_with("try") {
+        // a host that survives the failure of its callback and carries on
+        return Ok(r.unwrap_or(Value::Nil));
+    }
     r
+}
+fn try0(vm: &mut Vm<Host>, f: Value) -> R {
+    reenter_n(vm, "try0", f, &[])
+}
+fn try1(vm: &mut Vm<Host>, f: Value, a: Value) -> R {
+    reenter_n(vm, "try1", f, &[a])
+}
+fn try2(vm: &mut Vm<Host>, f: Value, a: Value, b: Value) -> R {
+    reenter_n(vm, "try2", f, &[a, b])
 }
 fn re0(vm: &mut Vm<Host>, f: Value) -> R {
     reenter_n(vm, "re0", f, &[])
@@ -207,6 +220,9 @@ fn register_typed(vm: &mut Vm<Host>) -> Result<(), ExecutionErrorPayload> {
     vm.register_native_function("re0", into_f1(re0))?;
     vm.register_native_function("re1", into_f2(re1))?;
     vm.register_native_function("re2", into_f3(re2))?;
+    vm.register_native_function("try0", into_f1(try0))?;
+    vm.register_native_function("try1", into_f2(try1))?;
+    vm.register_native_function("try2", into_f3(try2))?;
     Ok(())
 }
 
@@ -361,12 +377,27 @@ pub enum Callee {
     Spins,
     /// re-enters through re1 twice more
     Deep,
+    /// the native function value t1_s handed an integer: fails in the parameter conversion
+    NativeBadArg,
 }
 
 #[derive(Clone, Debug, Serialize, Deserialize)]
 pub struct ReCase {
     pub callee: Callee,
     pub args: Vec<Arg>,
+    /// the host function swallows an error of its callee and returns nil
+    #[serde(default)]
+    pub swallow: bool,
+}
+
+impl ReCase {
+    fn stub(&self) -> &'static str {
+        if self.swallow {
+            ["try0", "try1", "try2"][self.args.len().min(2)]
+        } else {
+            ["re0", "re1", "re2"][self.args.len().min(2)]
+        }
+    }
 }
 
 #[derive(Clone, Debug, Serialize, Deserialize)]
@@ -393,7 +424,7 @@ fn gen_workload(rng: &mut Rng) -> Workload {
         typed.push(TypedCall { native: "t0".into(), kinds: "".into(), args: vec![], path: rng.below(2) as u8 });
     }
     let reentry = if rng.chance(3, 5) {
-        let callee = match rng.below(9) {
+        let callee = match rng.below(10) {
             0 => Callee::RetParam(0),
             1 => Callee::RetParam(1),
             2 => Callee::RetEarly,
@@ -402,15 +433,17 @@ fn gen_workload(rng: &mut Rng) -> Workload {
             5 => Callee::NativeValue,
             6 => Callee::Fails,
             7 => Callee::Spins,
+            8 => Callee::NativeBadArg,
             _ => Callee::Deep,
         };
         let nargs = match callee {
             Callee::RetParam(_) => 2,
-            Callee::NativeValue | Callee::Deep | Callee::RetEarly => 1,
+            Callee::NativeValue | Callee::Deep | Callee::RetEarly | Callee::NativeBadArg => 1,
             Callee::ClosureCapture => 1,
             _ => rng.usize(3),
         };
-        Some(ReCase { callee, args: (0..nargs).map(|_| gen_arg(rng, 'v')).filter(|a| a.func_kind().is_none()).collect::<Vec<_>>() })
+        let args = (0..nargs).map(|_| gen_arg(rng, 'v')).filter(|a| a.func_kind().is_none()).collect::<Vec<_>>();
+        Some(ReCase { callee, args, swallow: rng.chance(1, 3) })
     } else {
         None
     };
@@ -419,9 +452,12 @@ fn gen_workload(rng: &mut Rng) -> Workload {
     if let Some(rc) = &mut w.reentry {
         let want = match rc.callee {
             Callee::RetParam(_) => 2,
-            Callee::NativeValue | Callee::Deep | Callee::RetEarly | Callee::ClosureCapture => 1,
+            Callee::NativeValue | Callee::Deep | Callee::RetEarly | Callee::ClosureCapture | Callee::NativeBadArg => 1,
             _ => rc.args.len(),
         };
+        if matches!(rc.callee, Callee::NativeBadArg) {
+            rc.args = vec![Arg::Int(7)];
+        }
         while rc.args.len() < want {
             rc.args.push(Arg::Int(5 + rc.args.len() as i64));
         }
@@ -476,10 +512,11 @@ fn build_program(w: &Workload) -> Module {
             Callee::Fails => c(CardBody::Function(format!("cb_fail{}", rc.args.len()))),
             Callee::Spins => c(CardBody::Function(format!("cb_spin{}", rc.args.len()))),
             Callee::Deep => c(CardBody::Function("cb_deep".into())),
+            Callee::NativeBadArg => c(CardBody::NativeFunction("t1_s".into())),
         };
         let mut args = vec![callee_card];
         args.extend(rc.args.iter().map(|a| a.card()));
-        let stub = ["re0", "re1", "re2"][rc.args.len().min(2)];
+        let stub = rc.stub();
         inner.cards.push(Card::set_global_var("re_result", Card::call_native(stub, args)));
     }
     inner.cards.push(Card::set_global_var("out_a", Card::read_var("keep_a")));
@@ -578,6 +615,16 @@ fn build_program(w: &Workload) -> Module {
         ))]),
     ));
     m
+}
+
+fn ctx_note_failed_imbalance(v: &mut Vec<(Json, String)>, callee_kind: &str, a: &HostCall) {
+    v.push((
+        json!({"inv": "failed-reentry-leaves-stacks-changed", "callee": callee_kind}),
+        format!(
+            "callee {callee_kind} failed ({}) under {}: run_function returned with the value stack changed by {:?} and the call stack by {:?}",
+            a.args[2].short(), a.name, a.args[0], a.args[1]
+        ),
+    ));
 }
 
 fn obs_matches(expected: &Option<Obs>, kind: Option<&'static str>, got: &Obs) -> bool {
@@ -696,15 +743,27 @@ fn run_workload(w: &Workload) -> (Option<RunOut>, Vec<(Json, String)>) {
     }
     // ---- oracle: re-entry
     if let Some(rc) = &w.reentry {
-        let stub = ["re0", "re1", "re2"][rc.args.len().min(2)];
+        let stub = rc.stub();
         let after: Vec<&&HostCall> = log.iter().filter(|c| c.name.ends_with(":after")).collect();
         let outer_after = after.iter().rev().find(|c| c.name == format!("{stub}:after") && c.call_depth == log.iter().find(|x| x.name == stub).map(|x| x.call_depth).unwrap_or(0));
         let callee_kind = format!("{:?}", rc.callee).split('(').next().unwrap_or("").to_string();
+        // a swallowed callee failure is not an error of the run; a swallowed Timeout cannot buy
+        // more instructions: the run still ends with Timeout
         let expect_err = match rc.callee {
+            Callee::Fails | Callee::NativeBadArg if rc.swallow => None,
+            Callee::NativeBadArg => Some(format!("TaskFailure({stub}):TaskFailure(t1_s):InvalidArgument")),
             Callee::Fails => Some(format!("TaskFailure({stub}):TaskFailure(t1_fail):InvalidArgument")),
             Callee::Spins => Some("Timeout".to_string()),
             _ => None,
         };
+        // whatever the callee did, run_function hands the stacks back as they were
+        for a in after.iter() {
+            let failed = matches!(&a.args[2], Obs::Str(s) if s.starts_with("Err:"));
+            if failed && (a.args[0] != Obs::Int(0) || a.args[1] != Obs::Int(0)) {
+                ctx_note_failed_imbalance(&mut v, &callee_kind, a);
+                break;
+            }
+        }
         match expect_err {
             Some(e) => {
                 let ok = if e == "Timeout" { innermost(&out.result) == "Timeout" } else { out.result == e };
@@ -728,6 +787,7 @@ fn run_workload(w: &Workload) -> (Option<RunOut>, Vec<(Json, String)>) {
                     Callee::RetParam(i) => rc.args.get(i).and_then(|a| a.obs()),
                     Callee::RetEarly | Callee::Deep => Some(Obs::Int(42)),
                     Callee::NoReturn => Some(Obs::Nil),
+                    Callee::Fails | Callee::NativeBadArg => Some(Obs::Nil),
                     Callee::ClosureCapture => Some(Obs::Int(11)),
                     Callee::NativeValue => None, // t1_v returns 1000 + index: checked through balance only
                     _ => None,
